@@ -72,7 +72,8 @@ def sensornet_files(outdir, n, naming, minute0=10, drop_tail=0, info=None):
     """double-ended templates; naming 'oryx' (Oryx template, time in the name, backward channel stored aligned) or 'halo'
     (Sentinel template, names carry date + run number + file number, backward channel flipped by the reader)"""
     os.makedirs(outdir, exist_ok=True)
-    tdir = "sensornet_oryx_v3.7_double" if naming == "oryx" else "sensornet_sentinel_v5.1_double"
+    tdir = {"oryx": "sensornet_oryx_v3.7_double", "halo": "sensornet_sentinel_v5.1_double", "halo-v1": "sensornet_halo_v1.0",
+            "oryx-single": "sensornet_oryx_v3.7"}[naming]
     src = sorted(G.glob(f"{D}/{tdir}/*.ddf"))[0]
     lines = re.split(r"\r\n|\r|\n", open(src, encoding="windows-1252", newline="").read())
     first = next(i for i, l in enumerate(lines) if re.match(r"^-?\d+[.,]\d+\t", l))
@@ -94,9 +95,11 @@ def sensornet_files(outdir, n, naming, minute0=10, drop_tail=0, info=None):
         rows = []
         for r, l in enumerate(data):
             c = l.split("\t")
-            c[1] = f"{tag(f, r, 5)}{dec}0"; c[2] = f"{tag(f, r, 1)}{dec}0"; c[3] = f"{tag(f, r, 2)}{dec}0"; c[4] = f"{tag(f, r, 3)}{dec}0"; c[5] = f"{tag(f, r, 4)}{dec}0"
+            c[1] = f"{tag(f, r, 5)}{dec}0"; c[2] = f"{tag(f, r, 1)}{dec}0"; c[3] = f"{tag(f, r, 2)}{dec}0"
+            if len(c) >= 6:
+                c[4] = f"{tag(f, r, 3)}{dec}0"; c[5] = f"{tag(f, r, 4)}{dec}0"
             rows.append("\t".join(c))
-        name = f"channel 1 20200306 18{minute0 + f}46 00001.ddf" if naming == "oryx" else f"channel 1 20200306 002 {f + 1:05d}.ddf"
+        name = f"channel 1 20200306 18{minute0 + f}46 00001.ddf" if naming.startswith("oryx") else f"channel 1 20200306 002 {f + 1:05d}.ddf"
         open(os.path.join(outdir, name), "w", encoding="windows-1252", newline="").write("\n".join(h + rows) + "\n")
     return len(data)
 
